@@ -29,6 +29,11 @@ def fresh_obs(cfg):
     return _FRESH[key]
 
 
+def _nm(e):
+    via = e.get("via", "assign")
+    return f"set.{e['p']}" + ("" if via in ("assign",) or (e["p"] == "P_comp" and via == "set") else f"[{via}]")
+
+
 def _diff(a, b):
     return [k for k in b if k not in a or not S.same(a[k], b[k])]
 
@@ -42,7 +47,7 @@ def _run(h, stepwise):
         try:
             S.apply(sc, e)
         except Exception as ex:          # noqa: BLE001
-            what = f"set.{e['p']}" if e["op"] == "set" else f"observe.{e.get('k')}"
+            what = _nm(e) if e["op"] == "set" else f"observe.{e.get('k')}"
             return [{"sig": f"{what}:raised-{type(ex).__name__}", "detail": f"{repr(ex)[:200]} after {json.dumps(h[1:i])}"}], sc.cfg
         if e["op"] == "set" and (stepwise or i == len(h) - 1):
             d = _diff(S.observe(sc), fresh_obs(sc.cfg))
@@ -51,7 +56,7 @@ def _run(h, stepwise):
                 k = d[0]
                 ex = f"{k}: after history {str(mut.get(k))[:160]} ... fresh {str(fr.get(k))[:160]}"
                 prev = [x for x in h[1:i] if x["op"] == "observe"]
-                return [{"sig": f"set.{e['p']}:stale.{k}", "detail": f"history {json.dumps(h[:i + 1])[:400]} | {ex}"} for k in d], sc.cfg
+                return [{"sig": f"{_nm(e)}:stale.{k}", "detail": f"history {json.dumps(h[:i + 1])[:400]} | {ex}"} for k in d], sc.cfg
     if h[-1]["op"] == "observe":
         d = _diff(S.observe(sc), fresh_obs(sc.cfg))
         if d:
@@ -111,7 +116,40 @@ def sensitivity_audit():
     return bad
 
 
+SPEC_MUTANTS = [
+    ("plasma-change-does-not-clear-att", 'ops |-> {"lconfmat"}, clear |-> {"pm", "bm", "att"}]', 'ops |-> {"lconfmat"}, clear |-> {"pm", "bm"}]'),
+    ("plasma-change-does-not-clear-pm", 'ops |-> {"lconfmat"}, clear |-> {"pm", "bm", "att"}]', 'ops |-> {"lconfmat"}, clear |-> {"bm", "att"}]'),
+    ("plasma-change-does-not-reconfigure-laser", 'ops |-> {"lconfmat"}, clear |-> {"pm", "bm", "att"}]', 'ops |-> {}, clear |-> {"pm", "bm", "att"}]'),
+    ("composition-does-not-cascade", '[cascade |-> {"plasma"}, ops |-> {}, clear |-> {}]', '[cascade |-> {}, ops |-> {}, clear |-> {}]'),
+    ("plasma-models-do-not-reconfigure", '[cascade |-> {}, ops |-> {"pconf"}, clear |-> {}]', '[cascade |-> {}, ops |-> {}, clear |-> {}]'),
+    ("beam-change-does-not-clear-att", '[cascade |-> {}, ops |-> {}, clear |-> {"bm", "att"}]', '[cascade |-> {}, ops |-> {}, clear |-> {"bm"}]'),
+    ("beam-change-does-not-clear-bm", '[cascade |-> {}, ops |-> {}, clear |-> {"bm", "att"}]', '[cascade |-> {}, ops |-> {}, clear |-> {"att"}]'),
+    ("beam-models-do-not-reconfigure", '[cascade |-> {}, ops |-> {"bconf"}, clear |-> {}]', '[cascade |-> {}, ops |-> {}, clear |-> {}]'),
+    ("attenuator-does-not-cascade", '[cascade |-> {"beam"}, ops |-> {}, clear |-> {}]', '[cascade |-> {}, ops |-> {}, clear |-> {}]'),
+    ("profile-does-not-reconfigure", '[cascade |-> {}, ops |-> {"lconfgeo"}, clear |-> {}]', '[cascade |-> {}, ops |-> {}, clear |-> {}]'),
+    ("pconf-does-not-clear-pm", '[rebuild |-> {"pmat"}, clear |-> {"pm"}]', '[rebuild |-> {"pmat"}, clear |-> {}]'),
+    ("bconf-does-not-clear-bm", '[rebuild |-> {"bgeom"}, clear |-> {"bm"}]', '[rebuild |-> {"bgeom"}, clear |-> {}]'),
+    ("lconfgeo-does-not-rebuild-lmat", '[rebuild |-> {"lseg", "lmat"}, clear |-> {}]', '[rebuild |-> {"lseg"}, clear |-> {}]'),
+    ("node-transform-skips-beam", '\\cup (IF c["B_parent"] = 2 THEN {"beam"} ELSE {})', '\\cup {}'),
+    ("beam-transform-fires-nothing", '"B_sigma", "B_att", "B_xf", "B_parent"} -> {"beam"}', '"B_sigma", "B_att", "B_parent"} -> {"beam"}'),
+    ("bfield-fires-nothing", 'p \\in {"P_bfield", "P_edist", "P_xf", "P_parent"} -> {"plasma"}', 'p \\in {"P_edist", "P_xf", "P_parent"} -> {"plasma"}'),
+    ("adata-not-reconfigured", 'p \\in {"P_adata", "P_geom", "P_geomT", "P_integ"} -> {"pconf"}', 'p \\in {"P_geom", "P_geomT", "P_integ"} -> {"pconf"}'),
+    ("cxline-no-change", '[] p = "M_cxline" -> {"bmchange"}', '[] p = "M_cxline" -> {}'),
+    ("observe-fills-from-stale-projection", 'cache[c] = <<>> THEN <<Proj(c, cfg)>> ELSE cache[c]]', 'cache[c] = <<>> THEN <<Proj(c, AllOnes)>> ELSE cache[c]]'),
+]
+
+
+def spec_mutation_audit(v):
+    from . import specmut
+    cfg = CFG.format(maxhist=3, inits='{"observed"}', params=tla_set(ALL)).replace("ACTION_CONSTRAINT Emit\n", "")
+    res = specmut.audit("Scene", cfg, SPEC_MUTANTS, procs=8)
+    v.notes["spec_mutants"] = res
+    v.notes["spec_mutants_killed"] = f"{sum(r.startswith('killed') for r in res.values())}/{len(res)}"
+
+
 def run(v):
+    if v.tier == "thorough":
+        spec_mutation_audit(v)
     bad = sensitivity_audit()
     if bad:
         raise core.MachineryError(f"sensitivity audit: changing {bad} is invisible to every observation; staleness of it could not be detected")
